@@ -9,6 +9,7 @@ import (
 	"github.com/go-kid/ioc/configure"
 	"github.com/go-kid/ioc/container"
 	"github.com/go-kid/ioc/container/processors"
+	"github.com/go-kid/ioc/definition"
 	"github.com/go-kid/ioc/util/framework_helper"
 
 	"verif/internal/core"
@@ -85,7 +86,7 @@ type c12Case struct {
 	// component name (created before it, the App nested inside the first runner's creation), 2: after
 	HoldApp int `json:"runners_hold_the_app,omitempty"`
 	// Decorate (processors): a further post-processor (priority-ordered, lowest Order value) wraps every
-	// post-processor created after it in a decorator that forwards the two initialization callbacks
+	// priority-ordered post-processor created after it in a decorator that forwards the two initialization callbacks
 	// and exposes neither Order() nor Priority(): the participants keep the places their own
 	// classes and Order values give them
 	Decorate bool `json:"participants_decorated,omitempty"`
@@ -99,10 +100,14 @@ func (*c12Decorator) Naming() string { return "0-decorator" }
 func (*c12Decorator) Priority()      {}
 func (*c12Decorator) Order() int     { return math.MinInt }
 func (*c12Decorator) PostProcessAfterInitialization(c any, name string) (any, error) {
+	// only the priority-ordered ones: decorating all of them alike would keep their relative places
+	// under any re-ordering
 	if p, ok := c.(container.ComponentPostProcessor); ok {
-		return &struct {
-			container.ComponentPostProcessor
-		}{p}, nil
+		if _, prio := c.(definition.Priority); prio {
+			return &struct {
+				container.ComponentPostProcessor
+			}{p}, nil
+		}
 	}
 	return c, nil
 }
